@@ -65,7 +65,7 @@ def gen_case(rng, cid, nops, types=None, first=None):
         ops.append(first)
         ln, cp = first[2] - first[1], cp - first[1]
     while len(ops) < nops:
-        k = rng.choice(['slice', 'slice', 'copyin', 'copyout', 'swap', 'zero', 'less', 'hash', 'append', 'grow',
+        k = rng.choice(['slice', 'slice', 'copyin', 'copyout', 'copyself', 'copyself', 'swap', 'zero', 'less', 'hash', 'append', 'grow',
                         'ensure', 'prefixed', 'sort', 'sort'])
         if k == 'slice':
             i = rng.randrange(0, cp + 1)
@@ -75,6 +75,13 @@ def gen_case(rng, cid, nops, types=None, first=None):
             ops.append(['copyin', [row(rng, types, nnum) for _ in range(rng.randrange(0, 4))]])
         elif k == 'copyout':
             ops.append(['copyout', rng.randrange(0, ln + 3)])
+        elif k == 'copyself' and ln >= 1:
+            # two sub-views of the view, often overlapping, destination before or after the source
+            a, b = rng.randrange(0, ln), rng.randrange(0, ln)
+            al, bl = rng.randrange(0, ln - a + 1), rng.randrange(0, ln - b + 1)
+            if rng.random() < 0.5:
+                al = bl = min(ln - a, ln - b, rng.choice([1, 2, 3, 4, 5, 8]))
+            ops.append(['copyself', a, al, b, bl])
         elif k == 'swap' and ln >= 1:
             ops.append(['swap', rng.randrange(0, ln), rng.randrange(0, ln)])
         elif k == 'zero':
